@@ -241,3 +241,31 @@ def assigns(body):
         for idx, s in enumerate(b["stmts"]):
             if s["k"] == "assign":
                 yield b["i"], idx, s
+
+
+def const_range_of(body, op):
+    """(start, end) when `op` is a `start..end` range built from two integer constants in this body, else None"""
+    c = op_const(op)
+    l = op_local(op)
+    if l is None:
+        return None
+    defs = [s for _, _, s in assigns(body) if s["lhs"]["l"] == l and not s["lhs"].get("p")]
+    if len(defs) != 1:
+        return None
+    rv = defs[0]["rv"]
+    if rv.get("rk") == "use":
+        return const_range_of(body, rv.get("op"))
+    if rv.get("rk") == "agg" and (rv.get("adt") or "").endswith("ops::range::Range") and len(rv.get("ops", [])) == 2:
+        out = []
+        for o in rv["ops"]:
+            c = op_const(o)
+            if c is None:
+                ll = op_local(o)
+                dd = [s for _, _, s in assigns(body) if s["lhs"]["l"] == ll and not s["lhs"].get("p")]
+                if len(dd) == 1 and dd[0]["rv"].get("rk") == "use":
+                    c = op_const(dd[0]["rv"].get("op"))
+            if c is None or c.get("int") is None:
+                return None
+            out.append(c["int"])
+        return tuple(out)
+    return None
